@@ -7,6 +7,7 @@ import (
 	"context"
 	"errors"
 	"fmt"
+	"sort"
 	"strings"
 	"sync"
 	"time"
@@ -55,6 +56,19 @@ func (s forcedSelector) Select(plans map[string]*planner.PlanConfig) *planner.Pl
 }
 
 func (p *ForcedPlanner) Stop() {}
+
+// OfferedSnapshot returns the sorted strategy names recorded in m (goroutines of a finished request may
+// still be calling the planner, so the map must only be read under the lock).
+func OfferedSnapshot(m map[string]bool) []string {
+	offeredMu.Lock()
+	defer offeredMu.Unlock()
+	out := make([]string, 0, len(m))
+	for k := range m {
+		out = append(out, k)
+	}
+	sort.Strings(out)
+	return out
+}
 
 func (s forcedSelector) UpdateStats(_ *planner.PlanConfig, _ time.Duration) {}
 
@@ -193,4 +207,21 @@ func (e *v1Engine) Check(rq fga.Req, ctxTuples []fga.Tuple) string {
 		Context:          fga.CtxStruct(rq.Ctx),
 	})
 	return Canon(res, err)
+}
+
+// SlowReads delays the reads that feed the right-hand side of the fast paths (Read, ReadUsersetTuples), so
+// that producers run ahead of their consumer: exposes buffer-reuse and cancellation mistakes.
+type SlowReads struct {
+	storage.OpenFGADatastore
+	Delay time.Duration
+}
+
+func (s SlowReads) Read(ctx context.Context, store string, f storage.ReadFilter, o storage.ReadOptions) (storage.TupleIterator, error) {
+	time.Sleep(s.Delay)
+	return s.OpenFGADatastore.Read(ctx, store, f, o)
+}
+
+func (s SlowReads) ReadUsersetTuples(ctx context.Context, store string, f storage.ReadUsersetTuplesFilter, o storage.ReadUsersetTuplesOptions) (storage.TupleIterator, error) {
+	time.Sleep(s.Delay)
+	return s.OpenFGADatastore.ReadUsersetTuples(ctx, store, f, o)
 }
